@@ -310,6 +310,27 @@ def _vertices_rule(ctx, out):
         out.bad(fn.qname, "does not list every control point of every segment", where=fn.where(), detail=detail)
     else:
         out.bad(fn.qname, "vertex list is not [each control point object once, in order]", where=fn.where(), detail=detail)
+    # second world: one control point object used by several segments away from their junctions (a shared centre),
+    # and a junction whose two sides are distinct objects at the same place: every object exactly once
+    a, b1, b2, c, centre = PV(0, 0), PV(4, 0), PV(4, 0), PV(0, 3), PV(1, 1)
+    J = Obj("J", segments=(Obj("s0", ctrlpoints=(a, centre, b1)), Obj("s1", ctrlpoints=(b2, centre, c)),
+                           Obj("s2", ctrlpoints=(c, centre, a))))
+    try:
+        got = list(Runner(ctx, set(), None).call_fn(fn, [J]))
+    except (Undecided, Raised) as ex:
+        out.undecided(fn.qname, str(ex), where=fn.where())
+        return
+    ids = [id(x) for x in got]
+    want = {id(x) for x in (a, centre, b1, b2, c)}
+    detail = f"got {got} for control points a,centre,b1 | b2,centre,c | c,centre,a"
+    if len(ids) != len(set(ids)):
+        out.bad(fn.qname, "a control point object shared by several segments is listed more than once (it would be "
+                          "transformed more than once)", where=fn.where(), detail=detail)
+    elif want - set(ids):
+        out.bad(fn.qname, "does not list every control point object of every segment", where=fn.where(), detail=detail)
+    else:
+        out.ok(fn.qname, "a control point object shared by several segments is listed once; both objects of a junction "
+                         "made of two objects are listed", where=fn.where())
 
 
 def r09_3(ctx):
